@@ -24,7 +24,8 @@ fn exported(m: &Metrics) -> [u64; 7] {
 }
 
 fn mode_threads(rng: &mut Rng, rounds: u64, nthreads: usize, per_round: u64) {
-    let m = Arc::new(Metrics::builder().max_denied_keys(0).build());
+    // denied-key tracking ON (alternating table sizes per run): the counters must not depend on the key of a request
+    let m = Arc::new(Metrics::builder().max_denied_keys(*rng.pick(&[0usize, 3, 100])).build());
     let mut expect = [0u64; 7];
     let mut prev = counters(&m);
     for round in 0..rounds {
@@ -45,8 +46,10 @@ fn mode_threads(rng: &mut Rng, rounds: u64, nthreads: usize, per_round: u64) {
                     let ti = match tr { Transport::Http => 1, Transport::Grpc => 2, Transport::Redis => 3 };
                     match r.below(5) {
                         0 => { m.record_error(tr); local[0] += 1; local[ti] += 1; local[6] += 1; }
-                        1 | 2 => { m.record_request(tr, false); local[0] += 1; local[ti] += 1; local[5] += 1; }
-                        _ => { m.record_request_with_key(tr, true, "k"); local[0] += 1; local[ti] += 1; local[4] += 1; }
+                        1 => { m.record_request(tr, false); local[0] += 1; local[ti] += 1; local[5] += 1; }
+                        2 => { let k = key_of(r.below(12)); m.record_request_with_key(tr, false, &k); local[0] += 1; local[ti] += 1; local[5] += 1; }
+                        3 => { let k = key_of(r.below(12)); m.record_request_with_key(tr, true, &k); local[0] += 1; local[ti] += 1; local[4] += 1; }
+                        _ => { m.record_request(tr, true); local[0] += 1; local[ti] += 1; local[4] += 1; }
                     }
                 }
                 local
@@ -63,6 +66,32 @@ fn mode_threads(rng: &mut Rng, rounds: u64, nthreads: usize, per_round: u64) {
         else if (0..7).any(|i| c[i] < prev[i]) { oracle = "bad:a counter decreased".into(); }
         prev = c;
         println!("{{\"mode\":\"threads\",\"round\":{round},\"threads\":{nthreads},\"events\":{},\"counters\":{:?},\"expected\":{:?},\"exported\":{:?},\"oracle\":{:?}}}", per_round * nthreads as u64, c, expect, e, oracle);
+    }
+}
+
+/// every single event kind on a fresh Metrics: the smallest histories (minimal failing input when a counter rule is broken)
+fn mode_events() {
+    for size in [0usize, 3, 100] {
+        for (ti, tr) in [(1usize, Transport::Http), (2, Transport::Grpc), (3, Transport::Redis)] {
+            for kind in 0..3u64 {
+                for kid in 0..12u64 {
+                    let m = Metrics::builder().max_denied_keys(size).build();
+                    let k = key_of(kid);
+                    let mut expect = [0u64; 7];
+                    // two events of the same kind: the second one meets an existing table entry
+                    for _ in 0..2 {
+                        match kind { 0 => { m.record_request_with_key(tr, true, &k); expect[4] += 1; } 1 => { m.record_request_with_key(tr, false, &k); expect[5] += 1; } _ => { m.record_error(tr); expect[6] += 1; } }
+                        expect[0] += 1; expect[ti] += 1;
+                    }
+                    let c = counters(&m);
+                    let e = exported(&m);
+                    let oracle = if c != expect { format!("bad:after 2 x {} on transport {} with a key of {} bytes (denied-key table size {size}) the counters [total,http,grpc,redis,allowed,denied,errors] are {:?}, expected {:?}",
+                        ["record_request_with_key(allowed)", "record_request_with_key(denied)", "record_error"][kind as usize], ["", "http", "grpc", "redis"][ti], k.len(), c, expect) }
+                        else if e != c { format!("bad:/metrics reports {:?} but the counters are {:?}", e, c) } else { "ok".into() };
+                    println!("{{\"mode\":\"event\",\"transport\":{ti},\"kind\":{kind},\"key_bytes\":{},\"table\":{size},\"oracle\":{:?}}}", k.len(), oracle);
+                }
+            }
+        }
     }
 }
 
@@ -176,6 +205,7 @@ fn main() {
     let mode = arg_value("--mode").unwrap_or_else(|| "threads".into());
     let mut rng = Rng::new(seed ^ 0x3e7);
     match mode.as_str() {
+        "events" => mode_events(),
         "threads" => mode_threads(&mut rng, arg_u64("--rounds", 20), arg_u64("--threads", 8) as usize, arg_u64("--events", 10000)),
         "denied" => mode_denied(&mut rng, arg_u64("--streams", 40), arg_u64("--maxlen", 400)),
         "escape" => mode_escape(&mut rng, arg_u64("--cases", 500)),
